@@ -231,9 +231,14 @@ def run(ctx):
         w = rng.choice([0.0, 0.5, 1.0, 2.0, 3.0, rng.uniform(0, 3)])
         bag = BagOfHypotheses(lm_weight=w)
         with_lm = rng.random() < 0.6
+        # mixed bags: some hypotheses carry an LM score and some do not (a greedy hypothesis merged into a re-scored beam);
+        # LM scores may be positive (insertion bonus)
+        mixed = rng.random() < 0.3
         nh = rng.randrange(1, 7)
         for i in range(nh):
-            bag.add('h%d' % i, rng.uniform(-30, 0), rng.uniform(-20, 0) if with_lm else None)
+            has = (rng.random() < 0.6) if mixed else with_lm
+            bag.add('h%d' % i, rng.uniform(-30, 0), rng.uniform(-20, 3 if mixed else 0) if has else None)
+        ctx.count('bag:mixed' if mixed else 'bag:uniform')
         ctx.evaluations += 1
         post = [math.exp(p) for p in bag.posteriors()]
         conf = bag.confidence()
@@ -245,6 +250,9 @@ def run(ctx):
         tc = bag.transcript_confidence('h0')
         if abs(tc - post[0]) > 1e-12 or bag.transcript_confidence('zzz') != 0.0:
             ctx.violation('bag-transcript-confidence', 'transcript confidence is not that hypothesis posterior', inp, tc)
+        tcs = [bag.transcript_confidence('h%d' % i) for i in range(nh)]
+        if any(not (0 <= t <= 1 + 1e-12) for t in tcs) or abs(sum(tcs) - 1) > 1e-9 or any(abs(a - b) > 1e-12 for a, b in zip(tcs, post)):
+            ctx.violation('bag-transcript-confidence:all', 'the transcript confidences of a bag are not its posteriors (in [0,1], summing to 1)', inp, tcs)
         if nh >= 2:
             ctx.nontriv(inp)
         # the same bag queried again after its (public) LM weight changed, and after another hypothesis was added
